@@ -72,3 +72,43 @@ def require(cond, msg):
 def const_int(ctx, node, module, cls=None, func=None):
     v = ctx.folder.eval(node, module, cls=cls, func=func)
     return v if isinstance(v, int) and not isinstance(v, bool) else None
+
+
+def structtag_visible_only(ctx, tag):
+    """[(ok, how, return node)] for every return of StructTag._decode: the returned mapping holds no name in cls.private,
+    either through a `not in cls.private` filter on the returned comprehension or because every store into the returned
+    dict sits on the not-private side of a membership test (BOOL bit members are never private hosts)."""
+    from ..astutil import ancestors
+    from ..linexpr import atom_name
+
+    d = tag.methods.get("_decode")
+    if d is None:
+        return None
+    g = ctx.cfg(d)
+    rets = [n for n in g.nodes if n.kind == "stmt" and isinstance(n.ast, ast.Return) and n.ast.value is not None]
+
+    def sign(t):
+        if isinstance(t, ast.Compare) and len(t.ops) == 1 and attr_path(t.comparators[0]) == "cls.private":
+            return 1 if isinstance(t.ops[0], ast.NotIn) else -1 if isinstance(t.ops[0], ast.In) else 0
+        return 0
+
+    out = []
+    for r in rets:
+        v = r.ast.value
+        ok, how = False, "visible members only"
+        if isinstance(v, ast.DictComp):
+            gen = v.generators[0]
+            ok = any(sign(c) == 1 and atom_name(c.left) == atom_name(v.key) for c in gen.ifs)
+            how = "returned dict keeps only keys not in cls.private"
+        elif isinstance(v, ast.Name):
+            stores = [n for n in g.nodes if n.kind == "stmt" and isinstance(n.ast, ast.Assign) and isinstance(n.ast.targets[0], ast.Subscript) and atom_name(n.ast.targets[0].value) == v.id]
+            flags = []
+            for st in stores:
+                if any(isinstance(a, ast.For) and attr_path(getattr(a.iter, "func", None)) == "cls.bits.items" for a in ancestors(st.ast)):
+                    flags.append(True)
+                    continue
+                flags.append(any(t.kind == "test" and sign(t.ast) and g.branch_dominates(t, sign(t.ast) == 1, st) for t in g.nodes))
+            ok = bool(stores) and all(flags)
+            how = "every member stored is tested to be outside cls.private"
+        out.append((ok, how, r.ast))
+    return out
